@@ -113,11 +113,16 @@ claim('C03',
       '(a compound integer quotient in plain double is reported); moveTimeLM delegation; D7 for '
       'constant-rate moves (accel = 0) the duration IS decided: it equals CEIL((2^31*pos - '
       'accum_adj)/rate) with pos = +-steps by the sign of the rate, which is the first tick at which '
-      'the budget is reached because the accumulator is affine in the tick count. NOT decided for '
-      'accelerated moves: that the duration is the first tick reaching the '
-      'budget, the position under reversal, accumulator range - root selection and rounding are '
-      'out of reach of static analysis here (brute force at design time saw ~1% deviations, see '
-      'DESIGN.md 4.3; nothing reports them).',
+      'the budget is reached because the accumulator is affine in the tick count. For '
+      'accelerated moves: D8 the roots of the duration quadratic are skipped only for a negative '
+      'discriminant, every accepted root is tested > 0 and on reversal paths > the reversal tick; '
+      'D9 the classification "never reverses" (position = initial direction * steps with no bound '
+      'on the step count) must imply that the rate keeps its sign after tick 1 - the two regions '
+      'of (rate, accel) are compared on integer points and a violation names a point (this rule '
+      'found defect F10, fixed in /repo 3803b08); D10 the steps made before a reversal are '
+      'FLOOR(|C(T)|/2^31) with the accumulator polynomial of D3. NOT decided: minimality of the '
+      'chosen root and the accumulator range when the accumulator lands exactly on a step '
+      'boundary (measure-zero coincidences; DESIGN.md 4.3).',
       'Trusted: as C01. The claim is deliberately limited; see DESIGN.md 3/C03 and 5.',
       'DESIGN.md section 3, C03')
 
